@@ -112,7 +112,7 @@ let run_case2 op t =
       let p = if in_yr y && List.for_all (fun ((y', _), _) -> in_yr y') sp then
           okl (List.concat_map (fun ((y', m'), d') -> zs [ y'; m'; d' ] @ bs [ date_exists y' m' d' ]) sp) else "na" in
       (ml, p)
-  | "ymdl" ->
+  | "ymdl" | "ymdl_bad" ->
       let y = next_z t in let m = next_z t in
       let ml = leg [ bs [ ymdl_ok_m y m ]; rz (ymdl_day_m y m); rtriple (ymdl_to_ymd_m y m); rz (ymdl_to_days_m y m); rz (ymdl_to_days_m y m) ] in
       let ld = dim y m in
